@@ -8,6 +8,10 @@ func dispatch(t *testing.T, sc scenario) result {
 		return runRate(sc)
 	case 2:
 		return runDivider(sc)
+	case 3:
+		return runUtils(sc)
+	case 4:
+		return runNew(sc)
 	default:
 		return result{verdict: "unknown-family"}
 	}
